@@ -156,8 +156,23 @@ def run_history(case, rec, lib, scratch, rng, fresh=None):
         offer_c, offer_m = copy.deepcopy(st["offer"]), copy.deepcopy(st["offer"])
         classes.append(st["class"])
         if st["persist"]:
+            # the client persists its trusted root under a fixed name and reloads it; the file is replaced
+            # through the library, atomically (temp file + os.replace), or by another writer
             fn = os.path.join(scratch, "trusted.root.json")
-            w = boundary.call(lib, C.write_metadata_to_file, client, fn)
+            mode = ["lib_write", "atomic_replace", "external_write"][(i + len(case["steps"])) % 3]
+            rec.hist("persist_mode", mode)
+            if mode == "lib_write":
+                w = boundary.call(lib, C.write_metadata_to_file, client, fn)
+            elif mode == "atomic_replace":
+                w = boundary.call(lib, C.write_metadata_to_file, client, fn + ".tmp")
+                if w.accepted:
+                    os.replace(fn + ".tmp", fn)
+            else:
+                from ..refs import canonjson as _cj
+
+                with open(fn, "wb") as fh:
+                    fh.write(_cj.canon(client))
+                w = boundary.call(lib, C.load_metadata_from_file, fn)  # any successful call
             l = boundary.call(lib, C.load_metadata_from_file, fn) if w.accepted else w
             rec.count("persist_cycles")
             if not l.accepted or boundary.value_fingerprint(l.value) != boundary.value_fingerprint(client):
